@@ -61,3 +61,92 @@ PROPS["C17"] = {
     "outside": ["n > 4", "arbitrary binary64 entries in A+-B (SAT adder equivalence: no verdict in 600 s)", "swap_rows", "matrix! bracket form (compile-time fact)"],
     "stubs": [],
 }
+
+
+def _names_from_macro(module, macro):
+    src = open(os.path.join(VERIF, "kani", "src", module + ".rs")).read()
+    return re.findall(macro + r"!\((\w+),", src)
+
+
+PROPS["C18"] = {
+    "level": "model_checking",
+    "k": {"quick": [n for n in _names_from_macro("c18", "c18") if "dop853" not in n and "bdf" not in n],
+          "thorough": _names_from_macro("c18", "c18")},
+    "files": ["src/methods/rk4.rs", "src/methods/rk23.rs", "src/methods/dopri5.rs", "src/methods/dop853.rs",
+              "src/methods/radau.rs", "src/methods/bdf.rs", "src/methods/mod.rs", "src/solve/solve_ivp.rs"],
+    "functions": ["RK4::solve", "RK23::solve", "DOPRI5::solve", "DOP853::solve", "RADAU::solve", "BDF::solve", "hinit"],
+    "explanation": "Counting IVP (own ode/jac counters, jac overridden) + recorder SolOut; the RHS returns nondeterministic finite values so every accept/reject pattern within the call budget is covered by one SAT query per fact.",
+    "bounds": {"quick": "n=1; concrete grid x0=0,xend=1,first_step=0.5 (and mirror); first 2 trial steps (explicit), 1 iteration (Radau, newton_maxiter=1); call budget = stages*2+2",
+               "thorough": "adds DOP853 (2 trials) and BDF (1 iteration)"},
+    "assumptions": ["powf replaced by a contract model (DESIGN section 2)", "RHS values finite, |v|<=1e6", "paths longer than the call budget are cut (assume(false)) and outside the claim"],
+    "stubs": ["f64::powf -> common::powf_model", "f64::powi -> common::powi_model", "IVP::ode/jac -> nondeterministic"],
+    "outside": ["steps beyond the call budget", "stiffness-test exits", "the default finite-difference Jacobian's own ode calls (excluded from nfev by the statement)"],
+}
+
+
+# ------------------------------------------------------------------------------- engine R units
+def _r():
+    import sys
+    if VERIF not in sys.path:
+        sys.path.insert(0, VERIF)
+    from rsym import units_rk as U
+    return U
+
+
+def _c02(tier):
+    U = _r()
+    units = []
+    for m in ("RK4", "RK23", "DOPRI5", "DOP853"):
+        units.append(U.structure_unit(m))
+        units.append(U.structure_unit(m, config="ondemand"))
+        if m == "DOP853" and tier == "quick":
+            units.append(U.order_unit(m, max_order=7))
+        else:
+            units.append(U.order_unit(m))
+    return units
+
+
+def _c07(tier):
+    U = _r()
+    return [U.dense_unit(m) for m in ("RK4", "RK23", "DOPRI5", "DOP853")] + [U.dense_unit(m, config="ondemand") for m in ("RK23", "DOPRI5", "DOP853")]
+
+
+def _c06r(tier):
+    U = _r()
+    return [U.endpoints_unit(m) for m in ("RK4", "RK23", "DOPRI5", "DOP853")]
+
+
+_RK_FILES = ["src/methods/rk4.rs", "src/methods/rk23.rs", "src/methods/dopri5.rs", "src/methods/dop853.rs", "src/methods/mod.rs"]
+
+PROPS["C02"] = {
+    "level": "other",
+    "r": {"quick": _c02("quick"), "thorough": _c02("thorough")},
+    "files": _RK_FILES + ["src/methods/radau.rs"],
+    "functions": ["RK4::solve", "RK23::solve", "DOPRI5::solve", "DOP853::solve (stage blocks, update, error estimate)", "module constants"],
+    "explanation": "The real solve() of each explicit method is executed symbolically (exact real arithmetic, n=1, symbolic x0,h,y0, fresh symbol per right-hand-side call, loop-carried scalars havoced) through one main-loop iteration; the Butcher tableau is read off the recorded call arguments as the code applies it (buffer reuse included). z3 then discharges: stage arguments/abscissae/new state are the extracted affine forms for all y,h,k (quantified); row sums; every Runge-Kutta order condition for all rooted trees up to p (ground rational arithmetic); estimator forms vanish exactly up to their order and not beyond; FSAL derivative evaluated at (x+h, y_new).",
+    "bounds": {"quick": "RK4 p=4 (8 trees), RK23 p=3 (4), DOPRI5 p=5 (17), DOP853 trees up to order 7 (85)", "thorough": "DOP853 all 200 trees up to order 8"},
+    "assumptions": ["floats as reals (order is a statement of real analysis); constants = exact rationals of their binary64 values, tolerance 16(|t|+1)*2^-53*sum|w_i|Phi_i(|A|)"],
+    "trusted_base": ["Butcher's order theorem", "z3 4.x nlsat/simplex", "sympy used only as the encoder's normal form"],
+    "outside": ["Radau's Newton path (data-dependent iteration)", "'accepted steps grow like tol^(-1/q)' (whole-run)", "coefficient errors below ~1e-13 relative"],
+}
+PROPS["C07"] = {
+    "level": "other",
+    "r": {"quick": _c07("quick"), "thorough": _c07("thorough")},
+    "files": _RK_FILES,
+    "functions": ["'Prepare dense output' blocks composed with RK4/RK23/DOPRI5/DOP853::interpolate"],
+    "explanation": "Continuous weights b_i(theta) obtained by symbolically composing the dense-output preparation of the executed step with the method's interpolate(); for every rooted tree up to the advertised interpolant order q, z3 decides the univariate polynomial obligation |sum b_i(theta) Phi_i - theta^|t|/gamma| <= tol for ALL theta in [0,1].",
+    "bounds": "q = 3 (RK4, RK23), 4 (DOPRI5), 7 (DOP853: 85 trees); n = 1; exact real arithmetic",
+    "assumptions": ["floats as reals"],
+    "trusted_base": ["continuous order conditions characterise the uniform order of a continuous extension"],
+    "outside": ["observed convergence rates on concrete problems", "Radau/BDF interpolants (see C06 for their endpoint identities)"],
+}
+PROPS["C06"] = {
+    "level": "other",
+    "r": {"quick": _c06r("quick"), "thorough": _c06r("thorough")},
+    "files": _RK_FILES,
+    "functions": ["dense-output blocks + interpolate() of the explicit methods"],
+    "explanation": "Endpoint identities of the step interpolant (interp(xold) == y_old exactly, interp(xold+h) == y_new to rounding of the constants, interpolant step == accepted step), decided by z3 for all y,h,k on the symbolically executed step.",
+    "bounds": "n = 1; one accepted step; exact real arithmetic",
+    "assumptions": ["floats as reals"],
+    "outside": ["float continuity beyond rounding"],
+}
